@@ -85,7 +85,7 @@ func c08(w *World) {
 	sendApp := func(i int) {
 		_ = s.Send(fixgen.NewMarketDataRequest().SetMDReqID("a" + itoa(i)).SetSubscriptionRequestType("1").SetMarketDepth(1))
 	}
-	actions := 3 + w.W.Draw(20)
+	actions := 3 + w.W.Draw(w.Deep(20))
 	for i := 0; i < actions && !sc.P.EOF; i++ {
 		d := lastOut().Add(N) // the running deadline
 		switch w.W.Pick(3, 3, 3, 3, 2, 2, 2, 3, 3) {
